@@ -288,7 +288,7 @@ pub fn property() -> Property {
         gen,
         check,
         finalize: no_finalize,
-        rule: "every batch position (path depth 0..=6 x every index below 2^depth = 127 positions) x protocol x key option none / lower-case hex / base64 / upper-case hex = 1016 cases is enumerated completely against the reference responder; the remaining evaluations sample: one evaluation = one simulated execution of the real client main() (seeded -p 0|13, -k none|hex in lower, upper or mixed case|base64, -n 1..8, -z or explicit -f, -j/-v) against (a) an honest reference responder that signs a chosen midpoint (epoch..year 9999) and places each request at a chosen index 0..63 of a batch of depth 0..6, or (b) 1-4 real Server workers under a swept wall clock with up to 64 competing requests so that batches form; non-trivial = the client received at least one response; distinct = distinct schedule fingerprints",
+        rule: "every batch position (path depth 0..=6 x every index below 2^depth = 127 positions) x protocol x key option none / lower-case hex / base64 / upper-case hex = 1016 cases is enumerated completely against the reference responder; the remaining evaluations sample: one evaluation = one simulated execution of the real client main() (seeded -p 0|13, -k none|hex in lower, upper or mixed case|base64, -n 1..8, -z / -f with one of seven format strings / both / neither, -j/-v, the machine in UTC or one of six fixed-offset time zones, classic responses with or without the top-level NONC) against (a) an honest reference responder that signs a chosen midpoint (epoch..year 9999) and places each request at a chosen index 0..63 of a batch of depth 0..6, or (b) 1-4 real Server workers under a swept wall clock with up to 64 competing requests so that batches form; non-trivial = the client received at least one response; distinct = distinct schedule fingerprints",
         assumptions: &["TZ is pinned to UTC; runs without -z use a format without %Z", "independent civil-time formatter (refimpl::time) is the output oracle"],
         real: REAL_C,
         stub: STUB,
